@@ -246,8 +246,7 @@ example : tri_ctor_rejects (20:ℝ) (some 4000.5) 8000 = false ∧ fbank_ctor_re
   · by_contra hc
     rw [Bool.not_eq_true] at hc
     have := ((floor_style_rejects_iff 20 (some 4000.5) 8000).1.mp hc).2 4000.5 rfl (by norm_num)
-    have h2 := floor_half_le 8000
-    norm_num at this h2
+    norm_num at this
 
 /-! ## 4. layout of the constructed banks -/
 
@@ -326,5 +325,1001 @@ theorem onGrid_strictMono (hm : (m:ℝ) - 1 + off ≤ (n:ℝ) + 1) (i j : ℕ) (
   exact grid_hz_strictMono ok hlt n _ _ (by linarith) (by linarith)
 
 end OnGrid
+
+/-- index form of "strictly increasing" -/
+def StrictIncr (l : List ℝ) : Prop := ∀ i j (hij : i < j) (hj : j < l.length), l[i]'(lt_trans hij hj) < l[j]
+
+theorem tri_high_eq (high : Option ℝ) (rate : ℝ) :
+    tri_high high rate = min (high.getD (rate / 2)) (rate / 2) := by
+  cases high <;> simp [tri_high, Option.getD] <;> norm_num
+
+theorem floor_high_eq (high : Option ℝ) (rate : ℝ) :
+    fbank_high high rate = high.getD (⌊rate / 2⌋ : ℝ) ∧ gabor_high high rate = fbank_high high rate ∧
+      gammatone_high high rate = fbank_high high rate := by
+  refine ⟨?_, rfl, rfl⟩
+  cases high <;> simp [fbank_high, Option.getD]
+  norm_num
+
+/-- an accepted triangular range with `low_hz` below the Nyquist frequency has `low < high` after the clamp -/
+theorem tri_accepted_lt {low rate : ℝ} {high : Option ℝ} (h : tri_ctor_rejects low high rate = false)
+    (hlow : low < rate / 2) : 0 ≤ low ∧ low < tri_high high rate ∧ tri_high high rate ≤ rate / 2 := by
+  have := (tri_rejects_iff low high rate).mp h
+  rw [tri_high_eq]
+  exact ⟨this.1, lt_min this.2.1 hlow, min_le_right _ _⟩
+
+/-- what all layout statements say about a list of Hz values `l` of a constructed bank:
+`m` values at steps `off, off+1, …` of a grid of `n+1` steps between `lo` and `hi`. -/
+structure Layout (sc : Scale ℝ) (lo hi : ℝ) (n m : ℕ) (off : ℝ) (l : List ℝ) : Prop where
+  length : l.length = m
+  /-- equally spaced on the scale -/
+  spaced : ∀ i (h : i < l.length), sc.h2s l[i] = sc.h2s lo + ((i:ℝ) + off) * gridStep sc lo hi n
+  /-- the step is positive -/
+  step_pos : 0 < gridStep sc lo hi n
+  /-- the grid runs from `low_hz` to `high_hz` -/
+  ends : sc.s2h (sc.h2s lo) = lo ∧ sc.s2h (sc.h2s lo + ((n:ℝ) + 1) * gridStep sc lo hi n) = hi
+  /-- strictly increasing in Hz -/
+  incr : StrictIncr l
+  /-- the Hz values themselves -/
+  value : ∀ i (h : i < l.length), l[i] = sc.s2h (sc.h2s lo + ((i:ℝ) + off) * gridStep sc lo hi n)
+
+theorem layout_onGrid {sc : Scale ℝ} {lo hi : ℝ} (ok : ScaleOK sc lo hi) (hlt : lo < hi) (n m : ℕ) (off : ℝ)
+    (hm : (m:ℝ) - 1 + off ≤ (n:ℝ) + 1) : Layout sc lo hi n m off (onGrid sc lo hi n m off) where
+  length := onGrid_length n m off
+  spaced := onGrid_scale ok hlt n m off hm
+  step_pos := gridStep_pos ok hlt n
+  ends := by
+    have := vertex_ends ok hlt n
+    rw [gridPos_eq, gridPos_eq] at this
+    simpa using this
+  incr := fun i j hij hj => onGrid_strictMono ok hlt n m off hm i j hij hj
+  value := fun i h => by rw [onGrid_getElem, gridPos_eq]
+
+/-- **Layout of `TriangularOverlappingFilterBank`** (any scale, any `num_filts`, any accepted range with
+`low_hz` below the Nyquist frequency): `num_filts + 2` vertices at steps `0 … num_filts+1`. -/
+theorem tri_layout {sc : Scale ℝ} {n : ℕ} {high : Option ℝ} {low rate : ℝ} {vs : List ℝ}
+    (hv : Scale.Valid sc low) (hok : triVertices sc n high low rate = .ok vs) (hlow : low < rate / 2) :
+    Layout sc low (tri_high high rate) n (n + 2) 0 vs := by
+  obtain ⟨hr, rfl⟩ := triVertices_ok hok
+  have hlt := (tri_accepted_lt hr hlow).2.1
+  exact layout_onGrid (scaleOK sc low _ hv hlt.le) hlt n (n + 2) 0 (by push_cast; linarith)
+
+/-- **Layout of `Fbank`** (mel scale fixed).  The constructor does not compare `low_hz` with the default
+`high_hz = sampling_rate // 2`, hence the hypothesis. -/
+theorem fbank_layout {n : ℕ} {high : Option ℝ} {low rate : ℝ} {vs : List ℝ}
+    (hok : fbankVertices n high low rate = .ok vs) (hlt : low < fbank_high high rate) :
+    0 ≤ low ∧ Layout .mel low (fbank_high high rate) n (n + 2) 0 vs := by
+  obtain ⟨hr, rfl⟩ := fbankVertices_ok hok
+  have h0 := ((floor_style_rejects_iff low high rate).1.mp hr).1
+  have hv : Scale.Valid (.mel : Scale ℝ) low := by show (-700:ℝ) < low; linarith
+  exact ⟨h0, layout_onGrid (scaleOK .mel low _ hv hlt.le) hlt n (n + 2) 0 (by push_cast; linarith)⟩
+
+/-- **Band edges of `GaborFilterBank`**: `num_filts + 1` edges at the half steps `1/2, 3/2, …`. -/
+theorem gabor_layout {sc : Scale ℝ} {n : ℕ} {high : Option ℝ} {low rate : ℝ} {es : List ℝ}
+    (hv : Scale.Valid sc low) (hok : gaborEdges sc n high low rate = .ok es) (hlt : low < gabor_high high rate) :
+    0 ≤ low ∧ Layout sc low (gabor_high high rate) n (n + 1) (1/2) es := by
+  obtain ⟨hr, rfl⟩ := gaborEdges_ok hok
+  rw [(floor_style_rejects_iff low high rate).2.1] at hr
+  have h0 := ((floor_style_rejects_iff low high rate).1.mp hr).1
+  exact ⟨h0, layout_onGrid (scaleOK sc low _ hv hlt.le) hlt n (n + 1) (1/2) (by push_cast; linarith)⟩
+
+/-- **Band edges of `ComplexGammatoneFilterBank`** -/
+theorem gammatone_layout {sc : Scale ℝ} {n : ℕ} {high : Option ℝ} {low rate : ℝ} {order : ℤ} {es : List ℝ}
+    (hv : Scale.Valid sc low) (hok : gammaEdges sc n high low rate order = .ok es)
+    (hlt : low < gammatone_high high rate) :
+    0 ≤ low ∧ 0 < order ∧ Layout sc low (gammatone_high high rate) n (n + 1) (1/2) es := by
+  obtain ⟨hr, ho, rfl⟩ := gammaEdges_ok hok
+  rw [(floor_style_rejects_iff low high rate).2.2] at hr
+  have h0 := ((floor_style_rejects_iff low high rate).1.mp hr).1
+  exact ⟨h0, ho, layout_onGrid (scaleOK sc low _ hv hlt.le) hlt n (n + 1) (1/2) (by push_cast; linarith)⟩
+
+/-- the lowest value of a layout is at or above `low_hz`, the highest at or below `high_hz` -/
+theorem Layout.bounds {sc : Scale ℝ} {lo hi : ℝ} {n m : ℕ} {off : ℝ} {l : List ℝ} (L : Layout sc lo hi n m off l)
+    (ok : ScaleOK sc lo hi) (hoff : 0 ≤ off) (hm : (m:ℝ) - 1 + off ≤ (n:ℝ) + 1) (i : ℕ) (h : i < l.length) :
+    lo ≤ l[i] ∧ l[i] ≤ hi := by
+  have hs := L.step_pos
+  have him : ((i:ℝ) + 1) ≤ m := by rw [L.length] at h; exact_mod_cast h
+  have hi0 : (0:ℝ) ≤ i := Nat.cast_nonneg i
+  rw [L.value i h]
+  constructor
+  · rcases eq_or_lt_of_le (show (0:ℝ) ≤ (i:ℝ) + off by linarith) with h0 | h0
+    · rw [← h0, zero_mul, add_zero, L.ends.1]
+    · have := ok.s2h_lt (sc.h2s lo) (sc.h2s lo + ((i:ℝ) + off) * gridStep sc lo hi n) (by nlinarith) ?_
+      · rw [L.ends.1] at this; exact this.le
+      · have : ((n:ℝ) + 1) * gridStep sc lo hi n = sc.h2s hi - sc.h2s lo := by
+          unfold gridStep; field_simp
+        nlinarith
+  · have htop : ((n:ℝ) + 1) * gridStep sc lo hi n = sc.h2s hi - sc.h2s lo := by
+      unfold gridStep; field_simp
+    rcases eq_or_lt_of_le (show (i:ℝ) + off ≤ (n:ℝ) + 1 by linarith) with h0 | h0
+    · rw [h0, L.ends.2]
+    · have := ok.s2h_lt (sc.h2s lo + ((i:ℝ) + off) * gridStep sc lo hi n)
+        (sc.h2s lo + ((n:ℝ) + 1) * gridStep sc lo hi n) (by nlinarith) (by rw [htop]; linarith)
+      rw [L.ends.2] at this; exact this.le
+
+/-! ### centres and supports: triangular / Fbank -/
+
+/-- **centers_strictMono** for vertex banks: `centers_hz = vertices[1:-1]` is strictly increasing -/
+theorem centers_strictMono_of_vertices {vs : List ℝ} (h : StrictIncr vs) : StrictIncr (centersOf vs) := by
+  intro i j hij hj
+  rw [centersOf_getElem, centersOf_getElem]
+  rw [centersOf_length] at hj
+  exact h (i + 1) (j + 1) (by omega) (by omega)
+
+/-- **center_mem_support** for vertex banks: `supports_hz[i] = (v[i], v[i+2])` strictly contains `v[i+1]` -/
+theorem center_mem_support_of_vertices {vs : List ℝ} (h : StrictIncr vs) (i : ℕ) (hi : i < (centersOf vs).length) :
+    ((supportsOf vs)[i]'(by rw [supportsOf_length]; rw [centersOf_length] at hi; exact hi)).1 < (centersOf vs)[i] ∧
+      (centersOf vs)[i] < ((supportsOf vs)[i]'(by rw [supportsOf_length]; rw [centersOf_length] at hi; exact hi)).2 := by
+  rw [centersOf_getElem, supportsOf_getElem]
+  rw [centersOf_length] at hi
+  exact ⟨h i (i + 1) (by omega) (by omega), h (i + 1) (i + 2) (by omega) (by omega)⟩
+
+theorem tri_centers_strictMono {sc : Scale ℝ} {n : ℕ} {high : Option ℝ} {low rate : ℝ} {vs : List ℝ}
+    (hv : Scale.Valid sc low) (hok : triVertices sc n high low rate = .ok vs) (hlow : low < rate / 2) :
+    StrictIncr (centersOf vs) ∧ (centersOf vs).length = n :=
+  ⟨centers_strictMono_of_vertices (tri_layout hv hok hlow).incr, by
+    rw [centersOf_length, (tri_layout hv hok hlow).length]; omega⟩
+
+theorem fbank_centers_strictMono {n : ℕ} {high : Option ℝ} {low rate : ℝ} {vs : List ℝ}
+    (hok : fbankVertices n high low rate = .ok vs) (hlt : low < fbank_high high rate) :
+    StrictIncr (centersOf vs) ∧ (centersOf vs).length = n :=
+  ⟨centers_strictMono_of_vertices (fbank_layout hok hlt).2.incr, by
+    rw [centersOf_length, (fbank_layout hok hlt).2.length]; omega⟩
+
+theorem tri_center_mem_support {sc : Scale ℝ} {n : ℕ} {high : Option ℝ} {low rate : ℝ} {vs : List ℝ}
+    (hv : Scale.Valid sc low) (hok : triVertices sc n high low rate = .ok vs) (hlow : low < rate / 2)
+    (i : ℕ) (hi : i < (centersOf vs).length) :
+    ((supportsOf vs)[i]'(by rw [supportsOf_length]; rw [centersOf_length] at hi; exact hi)).1 < (centersOf vs)[i] ∧
+      (centersOf vs)[i] < ((supportsOf vs)[i]'(by rw [supportsOf_length]; rw [centersOf_length] at hi; exact hi)).2 :=
+  center_mem_support_of_vertices (tri_layout hv hok hlow).incr i hi
+
+theorem fbank_center_mem_support {n : ℕ} {high : Option ℝ} {low rate : ℝ} {vs : List ℝ}
+    (hok : fbankVertices n high low rate = .ok vs) (hlt : low < fbank_high high rate)
+    (i : ℕ) (hi : i < (centersOf vs).length) :
+    ((supportsOf vs)[i]'(by rw [supportsOf_length]; rw [centersOf_length] at hi; exact hi)).1 < (centersOf vs)[i] ∧
+      (centersOf vs)[i] < ((supportsOf vs)[i]'(by rw [supportsOf_length]; rw [centersOf_length] at hi; exact hi)).2 :=
+  center_mem_support_of_vertices (fbank_layout hok hlt).2.incr i hi
+
+/-! ## 5. Gabor / gammatone: centres between their band edges -/
+
+theorem h2a_eq (f rate : ℝ) : hertz_to_angular f rate = f * 2 * Real.pi / rate := by
+  simp only [hertz_to_angular, transc_pi]; norm_num
+
+theorem a2h_eq (a rate : ℝ) : angular_to_hertz a rate = a * rate / (2 * Real.pi) := by
+  simp only [angular_to_hertz, transc_pi]; norm_num
+
+theorem a2h_h2a_add (c d rate : ℝ) (hr : rate ≠ 0) :
+    angular_to_hertz (hertz_to_angular c rate + d) rate = c + d * rate / (2 * Real.pi) := by
+  rw [a2h_eq, h2a_eq]
+  have := Real.pi_ne_zero
+  field_simp
+
+/-- midpoints of consecutive entries of a strictly increasing list lie strictly between them and are
+strictly increasing -/
+theorem midpoints_between {es : List ℝ} (h : StrictIncr es) (i : ℕ) (hi : i + 1 < es.length) :
+    es[i] < (es[i] + es[i + 1]) / 2 ∧ (es[i] + es[i + 1]) / 2 < es[i + 1] := by
+  have := h i (i + 1) (by omega) hi
+  constructor <;> linarith
+
+theorem incr_le {es : List ℝ} (h : StrictIncr es) (i j : ℕ) (hij : i ≤ j) (hj : j < es.length) :
+    es[i]'(lt_of_le_of_lt hij hj) ≤ es[j] := by
+  rcases Nat.eq_or_lt_of_le hij with rfl | hlt
+  · exact le_rfl
+  · exact (h i j hlt hj).le
+
+theorem gaborBank_ok {sc : Scale ℝ} {n : ℕ} {high : Option ℝ} {low rate : ℝ} {l2 erb : Bool}
+    {fs : List (GaborFilt ℝ)} (h : gaborBank sc n high low rate l2 erb = .ok fs) :
+    ∃ es, gaborEdges sc n high low rate = .ok es ∧
+      fs = (pairs es).map fun lr => gaborFilt l2 erb rate lr.1 lr.2 := by
+  unfold gaborBank at h
+  cases hE : gaborEdges sc n high low rate with
+  | error e => rw [hE] at h; simp [Except.map] at h
+  | ok es => rw [hE] at h; simp only [Except.map, Except.ok.injEq] at h; exact ⟨es, rfl, h.symm⟩
+
+theorem gammaBank_ok {sc : Scale ℝ} {n : ℕ} {high : Option ℝ} {low rate : ℝ} {order : ℤ} {mc l2 erb : Bool}
+    {fs : List (GammaFilt ℝ)} (h : gammaBank sc n high low rate order mc l2 erb = .ok fs) :
+    ∃ es, gammaEdges sc n high low rate order = .ok es ∧
+      fs = (pairs es).map fun lr => gammaFilt l2 erb mc order.toNat rate lr.1 lr.2 := by
+  unfold gammaBank at h
+  cases hE : gammaEdges sc n high low rate order with
+  | error e => rw [hE] at h; simp [Except.map] at h
+  | ok es => rw [hE] at h; simp only [Except.map, Except.ok.injEq] at h; exact ⟨es, rfl, h.symm⟩
+
+theorem gaborFilt_centerHz (l2 erb : Bool) (rate l r : ℝ) :
+    (gaborFilt l2 erb rate l r).centerHz = (l + r) / 2 := by
+  simp only [gaborFilt, gabor_center_hz, gabor_centers_hz_entry]; norm_num
+
+theorem gammaFilt_centerHz (l2 erb mc : Bool) (order : ℕ) (rate l r : ℝ) :
+    (gammaFilt l2 erb mc order rate l r).centerHz = (l + r) / 2 := by
+  simp only [gammaFilt, gammatone_center_hz, gammatone_centers_hz_entry]; norm_num
+
+/-- shared by the two edge banks: `n` filters, centre `i` is the midpoint of edges `i`, `i+1`,
+strictly between them, and the centres are strictly increasing -/
+theorem centers_of_edges {es : List ℝ} {n : ℕ} (hlen : es.length = n + 1) (hincr : StrictIncr es)
+    (cs : List ℝ) (hcl : cs.length = n)
+    (hc : ∀ i (h : i < cs.length), cs[i] = (es[i]'(by omega) + es[i + 1]'(by omega)) / 2) :
+    StrictIncr cs ∧ ∀ i (h : i < cs.length), es[i]'(by omega) < cs[i] ∧ cs[i] < es[i + 1]'(by omega) := by
+  have hb : ∀ i (h : i < cs.length), es[i]'(by omega) < cs[i] ∧ cs[i] < es[i + 1]'(by omega) := by
+    intro i h
+    rw [hc i h]
+    exact midpoints_between hincr i (by omega)
+  refine ⟨fun i j hij hj => ?_, hb⟩
+  have h1 := (hb i (lt_trans hij hj)).2
+  have h2 := (hb j hj).1
+  have h3 := incr_le hincr (i + 1) j (by omega) (by omega)
+  linarith
+
+/-- **centers_strictMono / centres between band edges, `GaborFilterBank`** -/
+theorem gabor_centers_strictMono {sc : Scale ℝ} {n : ℕ} {high : Option ℝ} {low rate : ℝ} {l2 erb : Bool}
+    {fs : List (GaborFilt ℝ)} (hv : Scale.Valid sc low) (hok : gaborBank sc n high low rate l2 erb = .ok fs)
+    (hlt : low < gabor_high high rate) :
+    ∃ es, gaborEdges sc n high low rate = .ok es ∧ es.length = n + 1 ∧ fs.length = n ∧
+      StrictIncr (fs.map (·.centerHz)) ∧
+      ∀ i (h : i < (fs.map (·.centerHz)).length), es[i]! < (fs.map (·.centerHz))[i] ∧
+        (fs.map (·.centerHz))[i] < es[i + 1]! := by
+  obtain ⟨es, hE, rfl⟩ := gaborBank_ok hok
+  have L := (gabor_layout hv hE hlt).2
+  have hlen := L.length
+  refine ⟨es, hE, hlen, by simp [pairs_length, hlen], ?_⟩
+  have hcl : (List.map (·.centerHz) ((pairs es).map fun lr => gaborFilt l2 erb rate lr.1 lr.2)).length = n := by
+    simp [pairs_length, hlen]
+  have := centers_of_edges hlen L.incr _ hcl (fun i h => by
+    simp only [List.getElem_map, pairs_getElem, gaborFilt_centerHz])
+  refine ⟨this.1, fun i h => ?_⟩
+  have hi : i < n := by rw [hcl] at h; exact h
+  have := this.2 i h
+  rw [getElem!_pos es i (by omega), getElem!_pos es (i + 1) (by omega)]
+  exact this
+
+/-- **centers_strictMono / centres between band edges, `ComplexGammatoneFilterBank`** -/
+theorem gammatone_centers_strictMono {sc : Scale ℝ} {n : ℕ} {high : Option ℝ} {low rate : ℝ} {order : ℤ}
+    {mc l2 erb : Bool} {fs : List (GammaFilt ℝ)} (hv : Scale.Valid sc low)
+    (hok : gammaBank sc n high low rate order mc l2 erb = .ok fs) (hlt : low < gammatone_high high rate) :
+    ∃ es, gammaEdges sc n high low rate order = .ok es ∧ es.length = n + 1 ∧ fs.length = n ∧
+      StrictIncr (fs.map (·.centerHz)) ∧
+      ∀ i (h : i < (fs.map (·.centerHz)).length), es[i]! < (fs.map (·.centerHz))[i] ∧
+        (fs.map (·.centerHz))[i] < es[i + 1]! := by
+  obtain ⟨es, hE, rfl⟩ := gammaBank_ok hok
+  have L := (gammatone_layout hv hE hlt).2.2
+  have hlen := L.length
+  refine ⟨es, hE, hlen, by simp [pairs_length, hlen], ?_⟩
+  have hcl : (List.map (·.centerHz)
+      ((pairs es).map fun lr => gammaFilt l2 erb mc order.toNat rate lr.1 lr.2)).length = n := by
+    simp [pairs_length, hlen]
+  have := centers_of_edges hlen L.incr _ hcl (fun i h => by
+    simp only [List.getElem_map, pairs_getElem, gammaFilt_centerHz])
+  refine ⟨this.1, fun i h => ?_⟩
+  have hi : i < n := by rw [hcl] at h; exact h
+  have := this.2 i h
+  rw [getElem!_pos es i (by omega), getElem!_pos es (i + 1) (by omega)]
+  exact this
+
+/-! ## 6. Gabor: supports, peak, 3 dB crossing, ERB, L2 norm -/
+
+theorem gabor_bandwidth_const_pos (erb : Bool) : 0 < (gabor_bandwidth_const erb : ℝ) := by
+  cases erb
+  · simp only [gabor_bandwidth_const, Bool.false_eq_true, ↓reduceIte, transc_sqrt, transc_log]
+    apply Real.sqrt_pos.mpr
+    have : 0 < Real.log 10.0 := Real.log_pos (by norm_num)
+    positivity
+  · simp only [gabor_bandwidth_const, ↓reduceIte, transc_sqrt, transc_pi]
+    have := Real.sqrt_pos.mpr Real.pi_pos
+    positivity
+
+/-- half the band width in rad/sample, `hertz_to_angular(center_hz - left_intersect)` -/
+theorem gabor_half_width (rate l r : ℝ) :
+    hertz_to_angular ((l + r) / 2 - l) rate = (r - l) * Real.pi / rate := by
+  rw [h2a_eq]; ring
+
+theorem gaborFilt_std (l2 erb : Bool) (rate l r : ℝ) :
+    (gaborFilt l2 erb rate l r).std = gabor_bandwidth_const erb / ((r - l) * Real.pi / rate) := by
+  simp only [gaborFilt, gabor_std, gabor_stds_entry, gabor_center_hz]
+  rw [← gabor_half_width]; norm_num
+
+theorem gaborFilt_std_pos (l2 erb : Bool) (rate l r : ℝ) (hrate : 0 < rate) (hlr : l < r) :
+    0 < (gaborFilt l2 erb rate l r).std := by
+  rw [gaborFilt_std]
+  have h1 := gabor_bandwidth_const_pos erb
+  have h2 : 0 < r - l := by linarith
+  exact div_pos h1 (div_pos (mul_pos h2 Real.pi_pos) hrate)
+
+theorem gaborFilt_centerAng (l2 erb : Bool) (rate l r : ℝ) :
+    (gaborFilt l2 erb rate l r).centerAng = hertz_to_angular ((l + r) / 2) rate := by
+  simp only [gaborFilt, gabor_center_ang, gabor_center_hz]; norm_num
+
+theorem log_eps_neg : Real.log (effective_support_threshold : ℝ) < 0 :=
+  Real.log_neg (by simp only [effective_support_threshold]; norm_num)
+    (by simp only [effective_support_threshold]; norm_num)
+
+/-- **center_mem_support, `GaborFilterBank`** (default normalisation): the centre lies strictly inside
+`supports_hz`, which is symmetric around it. -/
+theorem gabor_center_mem_support (erb : Bool) (rate l r : ℝ) (hrate : 0 < rate) (hlr : l < r) :
+    let f := gaborFilt false erb rate l r
+    (f.suppHz rate).1 < f.centerHz ∧ f.centerHz < (f.suppHz rate).2 ∧
+      f.centerHz - (f.suppHz rate).1 = (f.suppHz rate).2 - f.centerHz := by
+  intro f
+  have hstd : 0 < f.std := gaborFilt_std_pos false erb rate l r hrate hlr
+  have hd : 0 < gabor_diff_ang false f.std (gabor_f_support_const false) := by
+    simp only [gabor_diff_ang, gabor_f_support_const, Bool.false_eq_true, ↓reduceIte, transc_sqrt, transc_log]
+    apply div_pos _ hstd
+    apply Real.sqrt_pos.mpr
+    have := log_eps_neg
+    nlinarith
+  have hc : f.centerHz = (l + r) / 2 := gaborFilt_centerHz ..
+  have hlo : (f.suppHz rate).1 = (l + r) / 2 + (-gabor_diff_ang false f.std (gabor_f_support_const false)) * rate / (2 * Real.pi) := by
+    rw [← a2h_h2a_add _ _ _ hrate.ne']
+    simp only [GaborFilt.suppHz, f, gaborFilt, gabor_supp_ang_lo, gabor_center_ang, gabor_center_hz, gabor_stds_entry]
+    norm_num; rfl
+  have hhi : (f.suppHz rate).2 = (l + r) / 2 + (gabor_diff_ang false f.std (gabor_f_support_const false)) * rate / (2 * Real.pi) := by
+    rw [← a2h_h2a_add _ _ _ hrate.ne']
+    simp only [GaborFilt.suppHz, f, gaborFilt, gabor_supp_ang_hi, gabor_center_ang, gabor_center_hz, gabor_stds_entry]
+    norm_num
+  have hq : 0 < gabor_diff_ang false f.std (gabor_f_support_const false) * rate / (2 * Real.pi) := by
+    have := Real.pi_pos; positivity
+  rw [hlo, hhi, hc]
+  refine ⟨?_, ?_, ?_⟩
+  · have : -gabor_diff_ang false f.std (gabor_f_support_const false) * rate / (2 * Real.pi)
+        = -(gabor_diff_ang false f.std (gabor_f_support_const false) * rate / (2 * Real.pi)) := by ring
+    linarith
+  · linarith
+  · ring
+
+/-- the continuous-frequency response of one filter: the per-bin formula `gabor_fr_term` of
+`get_frequency_response` at a real-valued bin (`idx := ω`, `width := 2π`, `period := 0`). -/
+noncomputable def gaborH (l2 : Bool) (f : GaborFilt ℝ) (ω : ℝ) : ℝ :=
+  gabor_fr_term (gabor_fr_num_term f.std) f.centerAng (gabor_fr_const_term l2 f.std) ω (2 * Real.pi) 0
+
+theorem gabor_fr_term_eq (std ca ct idx width period : ℝ) :
+    gabor_fr_term (gabor_fr_num_term std) ca ct idx width period =
+      Real.exp (-(std ^ 2) / 2 * (ca - (idx / width + period) * 2 * Real.pi) ^ 2 + ct) := by
+  simp only [gabor_fr_term, gabor_fr_num_term, transc_exp, transc_pi]; norm_num; ring_nf
+
+theorem gaborH_eq (l2 : Bool) (f : GaborFilt ℝ) (ω : ℝ) :
+    gaborH l2 f ω = Real.exp (-(f.std ^ 2) / 2 * (f.centerAng - ω) ^ 2 + gabor_fr_const_term l2 f.std) := by
+  unfold gaborH
+  rw [gabor_fr_term_eq]
+  have h : (ω / (2 * Real.pi) + 0) * 2 * Real.pi = ω := by
+    have := Real.pi_ne_zero
+    field_simp
+    ring
+  rw [h]
+
+/-- every summand of the DFT-bin loop is the continuous response at the bin's (periodised) frequency -/
+theorem gabor_bin_term (l2 : Bool) (f : GaborFilt ℝ) (idx width period : ℝ) :
+    gabor_fr_term (gabor_fr_num_term f.std) f.centerAng (gabor_fr_const_term l2 f.std) idx width period =
+      gaborH l2 f ((idx / width + period) * 2 * Real.pi) := by
+  rw [gaborH_eq, gabor_fr_term_eq]
+
+/-- `get_frequency_response` is the sum of the periodic images over the period range of the code -/
+theorem gabor_response_bins (l2 : Bool) (f : GaborFilt ℝ) (width : ℕ) (half : Bool) (k : ℕ)
+    (hk : k < dftSize width half) :
+    (gaborResponse l2 f width half)[k]? = some
+      (sumRange 0 (· + ·) (gabor_fr_period_lo f.suppAngLo) (gabor_fr_period_hi f.suppAngHi)
+        fun p => gaborH l2 f (((k:ℝ) / (width:ℝ) + (p:ℝ)) * 2 * Real.pi)) := by
+  unfold gaborResponse
+  rw [tabulate_getElem?, if_pos hk]
+  simp only [gabor_bin_term]
+  rw [show (0.0:ℝ) = 0 by norm_num]
+
+/-- **gabor_peak**: without L2 scaling the response is 1 at the centre and at most 1 elsewhere -/
+theorem gabor_peak (f : GaborFilt ℝ) (ω : ℝ) :
+    gaborH false f f.centerAng = 1 ∧ gaborH false f ω ≤ 1 := by
+  simp only [gaborH_eq, gabor_fr_const_term, Bool.false_eq_true, ↓reduceIte]
+  constructor
+  · norm_num
+  · rw [← Real.exp_zero]
+    apply Real.exp_le_exp.mpr
+    have : 0 ≤ f.std ^ 2 / 2 * (f.centerAng - ω) ^ 2 := by positivity
+    norm_num; nlinarith
+
+/-- **gabor_3dB** (`erb=False`): at both band edges the power gain is `10^(-3/10)`, i.e. exactly −3 dB;
+neighbouring filters share an edge, so they cross there. -/
+theorem gabor_3dB (rate l r : ℝ) (hrate : 0 < rate) (hlr : l < r) :
+    let f := gaborFilt false false rate l r
+    (gaborH false f (hertz_to_angular l rate)) ^ 2 = (10:ℝ) ^ (-(3/10) : ℝ) ∧
+      (gaborH false f (hertz_to_angular r rate)) ^ 2 = (10:ℝ) ^ (-(3/10) : ℝ) := by
+  intro f
+  have hstd : f.std = gabor_bandwidth_const false / ((r - l) * Real.pi / rate) := gaborFilt_std ..
+  have hca : f.centerAng = hertz_to_angular ((l + r) / 2) rate := gaborFilt_centerAng ..
+  have hbc : (gabor_bandwidth_const false : ℝ) ^ 2 = 3 / 10 * Real.log 10 := by
+    simp only [gabor_bandwidth_const, Bool.false_eq_true, ↓reduceIte, transc_sqrt, transc_log]
+    rw [Real.sq_sqrt]
+    · norm_num
+    · have : 0 < Real.log 10.0 := Real.log_pos (by norm_num)
+      positivity
+  have hd : (r - l) * Real.pi / rate ≠ 0 := by
+    have := Real.pi_pos; have : 0 < r - l := by linarith
+    positivity
+  have key : ∀ e, (e = l ∨ e = r) → (gaborH false f (hertz_to_angular e rate)) ^ 2 = (10:ℝ) ^ (-(3/10) : ℝ) := by
+    intro e he
+    rw [gaborH_eq, ← Real.exp_nat_mul, Real.rpow_def_of_pos (by norm_num : (0:ℝ) < 10)]
+    congr 1
+    simp only [gabor_fr_const_term, Bool.false_eq_true, ↓reduceIte]
+    have hsq : f.std ^ 2 * (f.centerAng - hertz_to_angular e rate) ^ 2 = 3 / 10 * Real.log 10 := by
+      rw [hstd, hca, h2a_eq, h2a_eq, div_pow, hbc]
+      have hrl : r - l ≠ 0 := by linarith
+      have hpi := Real.pi_ne_zero
+      have hr := hrate.ne'
+      rcases he with rfl | rfl
+      · field_simp; ring
+      · field_simp; ring
+    push_cast
+    nlinarith
+  exact ⟨key l (Or.inl rfl), key r (Or.inr rfl)⟩
+
+/-- **gabor_erb** (`erb=True`): the equivalent rectangular bandwidth `∫|H|² / max|H|²` (rad/sample) equals
+the angular distance between the filter's two band edges. -/
+theorem gabor_erb (rate l r : ℝ) (hrate : 0 < rate) (hlr : l < r) :
+    let f := gaborFilt false true rate l r
+    (∫ ω : ℝ, (gaborH false f ω) ^ 2) / (gaborH false f f.centerAng) ^ 2 = hertz_to_angular (r - l) rate := by
+  intro f
+  have hstd : f.std = gabor_bandwidth_const true / ((r - l) * Real.pi / rate) := gaborFilt_std ..
+  have hpos : 0 < f.std := gaborFilt_std_pos false true rate l r hrate hlr
+  rw [(gabor_peak f 0).1, one_pow, div_one]
+  have h1 : ∀ ω, (gaborH false f ω) ^ 2 = Real.exp (-(f.std ^ 2) * (ω - f.centerAng) ^ 2) := by
+    intro ω
+    rw [gaborH_eq, ← Real.exp_nat_mul]
+    simp only [gabor_fr_const_term, Bool.false_eq_true, ↓reduceIte]
+    congr 1; push_cast; norm_num; ring
+  simp_rw [h1]
+  rw [MeasureTheory.integral_sub_right_eq_self (fun x => Real.exp (-(f.std ^ 2) * x ^ 2)) f.centerAng,
+    integral_gaussian]
+  have hbc : (gabor_bandwidth_const true : ℝ) = Real.sqrt Real.pi / 2 := by
+    simp only [gabor_bandwidth_const, ↓reduceIte, transc_sqrt, transc_pi]; norm_num
+  rw [Real.sqrt_div Real.pi_pos.le, Real.sqrt_sq hpos.le, hstd, hbc, h2a_eq]
+  have h2 : Real.sqrt Real.pi ≠ 0 := (Real.sqrt_pos.mpr Real.pi_pos).ne'
+  have h3 : r - l ≠ 0 := by linarith
+  have := Real.pi_ne_zero
+  field_simp
+
+/-- squared modulus of a complex number given as a pair -/
+def nsq (z : ℝ × ℝ) : ℝ := z.1 ^ 2 + z.2 ^ 2
+
+theorem nsq_cexp (z : ℝ × ℝ) : nsq (cexp z) = Real.exp (2 * z.1) := by
+  simp only [nsq, cexp, transc_exp, transc_cos, transc_sin]
+  have := Real.cos_sq_add_sin_sq z.2
+  have : Real.exp (2 * z.1) = Real.exp z.1 ^ 2 := by rw [← Real.exp_nat_mul]; norm_num
+  rw [this]; nlinarith [Real.cos_sq_add_sin_sq z.2]
+
+/-- **gabor_l2** (`scale_l2_norm=True`): the (continuous-time) impulse response has unit L2 norm -/
+theorem gabor_l2 (std ca : ℝ) (hstd : 0 < std) :
+    ∫ t : ℝ, nsq (gabor_ir_val t (gabor_ir_denom_term std) (gabor_ir_const_term true std) ca) = 1 := by
+  have h1 : ∀ t : ℝ, nsq (gabor_ir_val t (gabor_ir_denom_term std) (gabor_ir_const_term true std) ca) =
+      Real.exp (-(1 / std ^ 2) * t ^ 2) * (1 / (std * Real.sqrt Real.pi)) := by
+    intro t
+    simp only [gabor_ir_val, nsq_cexp, cadd, cofReal, cscale, cI, gabor_ir_denom_term, gabor_ir_const_term,
+      ↓reduceIte, transc_log, transc_pi]
+    have hsp : 0 < Real.sqrt Real.pi := Real.sqrt_pos.mpr Real.pi_pos
+    have e1 : (1:ℝ) / (std * Real.sqrt Real.pi) = Real.exp (-(Real.log std) - Real.log Real.pi / 2) := by
+      rw [Real.exp_sub, Real.exp_neg, Real.exp_log hstd, ← Real.log_sqrt Real.pi_pos.le, Real.exp_log hsp]
+      field_simp
+    rw [e1, ← Real.exp_add]
+    congr 1
+    norm_num
+    field_simp
+    ring
+  simp_rw [h1]
+  rw [MeasureTheory.integral_mul_const, integral_gaussian]
+  have hsp : 0 < Real.sqrt Real.pi := Real.sqrt_pos.mpr Real.pi_pos
+  rw [show Real.pi / (1 / std ^ 2) = Real.pi * std ^ 2 by field_simp,
+    Real.sqrt_mul Real.pi_pos.le, Real.sqrt_sq hstd.le]
+  field_simp
+
+example : (0:ℝ) < 8000 ∧ (300:ℝ) < 500 := by norm_num
+
+/-! ## 7. complex gammatone: peak, 3 dB crossing, L2 constant, ERB constant -/
+
+theorem nsq_cmul (a b : ℝ × ℝ) : nsq (cmul a b) = nsq a * nsq b := by
+  simp only [nsq, cmul]; ring
+
+theorem nsq_cpow (a : ℝ × ℝ) (n : ℕ) : nsq (cpow a n) = nsq a ^ n := by
+  induction n with
+  | zero => simp only [cpow, nsq]; norm_num
+  | succ n ih => rw [cpow, nsq_cmul, ih, pow_succ]
+
+theorem nsq_cscale (r : ℝ) (a : ℝ × ℝ) : nsq (cscale r a) = r ^ 2 * nsq a := by
+  simp only [nsq, cscale]; ring
+
+theorem nsq_cdiv (a b : ℝ × ℝ) (hb : nsq b ≠ 0) : nsq (cdiv a b) = nsq a / nsq b := by
+  simp only [nsq, cdiv] at hb ⊢
+  have hb' : b.1 * b.1 + b.2 * b.2 ≠ 0 := by rw [← sq, ← sq]; exact hb
+  field_simp
+  ring
+
+/-- **|H(ω)|²** of one gammatone image: `(c (n-1)!)² / (α² + (ω-ξ)²)^n` (the time shift only turns the phase) -/
+theorem gammatone_H_nsq (n : ℕ) (alpha c xi offset omega : ℝ) (ha : 0 < alpha) :
+    nsq (gammatone_H n alpha c xi offset omega) =
+      (c * ((n - 1).factorial : ℝ)) ^ 2 / (alpha ^ 2 + (omega - xi) ^ 2) ^ n := by
+  have hden : nsq (cadd (cofReal alpha) (cscale (omega - xi) cI)) = alpha ^ 2 + (omega - xi) ^ 2 := by
+    simp only [nsq, cadd, cofReal, cscale, cI]; norm_num
+  have hpos : 0 < alpha ^ 2 + (omega - xi) ^ 2 := by positivity
+  simp only [gammatone_H]
+  rw [nsq_cdiv _ _ (by rw [nsq_cpow, hden]; positivity), nsq_cpow, hden, nsq_cscale, nsq_cscale, nsq_cexp,
+    fact_eq]
+  have : (cscale offset (cscale omega (cneg (cI : ℝ × ℝ)))).1 = 0 := by
+    simp only [cscale, cneg, cI]; norm_num
+  rw [this]; norm_num; ring
+
+/-- `alpha = exp(alpha_const) * Δω` and `c = exp(log_c)` for a filter between band edges `l < r` -/
+theorem gammaFilt_alpha (l2 erb mc : Bool) (n : ℕ) (rate l r : ℝ) (hrate : 0 < rate) (hlr : l < r) :
+    (gammaFilt l2 erb mc n rate l r).alpha =
+      Real.exp (gammatone_alpha_const erb n) * hertz_to_angular (r - l) rate ∧
+    0 < hertz_to_angular (r - l) rate ∧ 0 < (gammaFilt l2 erb mc n rate l r).alpha := by
+  have hd : 0 < hertz_to_angular (r - l) rate := by
+    rw [h2a_eq]; have := Real.pi_pos; have : 0 < r - l := by linarith
+    positivity
+  have h1 : (gammaFilt l2 erb mc n rate l r).alpha =
+      Real.exp (gammatone_alpha_const erb n) * hertz_to_angular (r - l) rate := by
+    simp only [gammaFilt, gammatone_alphas_entry, gammatone_alpha, gammatone_log_alpha, transc_exp, transc_log]
+    rw [Real.exp_add, Real.exp_log hd]
+  refine ⟨h1, hd, ?_⟩
+  rw [h1]; positivity
+
+theorem gammaFilt_xi (l2 erb mc : Bool) (n : ℕ) (rate l r : ℝ) :
+    (gammaFilt l2 erb mc n rate l r).xi = hertz_to_angular ((l + r) / 2) rate := by
+  simp only [gammaFilt, gammatone_xi, gammatone_center_hz]; norm_num
+
+theorem fact_pos' (n : ℕ) : (0:ℝ) < ((n.factorial : ℕ) : ℝ) := by exact_mod_cast n.factorial_pos
+
+/-- **gammatone_peak** (no L2 scaling): `c (n-1)! / αⁿ = 1`, hence `|H(ξ)| = 1` and `|H(ω)| ≤ 1` everywhere -/
+theorem gammatone_peak (erb mc : Bool) (n : ℕ) (rate l r : ℝ) (hrate : 0 < rate) (hlr : l < r) :
+    let f := gammaFilt false erb mc n rate l r
+    f.c * ((n - 1).factorial : ℝ) / f.alpha ^ n = 1 ∧
+      nsq (gammatone_H n f.alpha f.c f.xi f.offset f.xi) = 1 ∧
+      ∀ ω, nsq (gammatone_H n f.alpha f.c f.xi f.offset ω) ≤ 1 := by
+  intro f
+  obtain ⟨-, -, ha⟩ := gammaFilt_alpha false erb mc n rate l r hrate hlr
+  have hfp := fact_pos' (n - 1)
+  have hc : f.c * ((n - 1).factorial : ℝ) = f.alpha ^ n := by
+    simp only [f, gammaFilt, gammatone_cs_entry, gammatone_c, gammatone_log_c, gammatone_alphas_entry,
+      gammatone_alpha, Bool.false_eq_true, ↓reduceIte, transc_exp, transc_log, fact_eq]
+    rw [Real.exp_sub, Real.exp_log hfp, ← Real.exp_nat_mul]
+    field_simp
+  have han : 0 < f.alpha ^ n := pow_pos ha n
+  refine ⟨by rw [hc]; exact div_self han.ne', ?_, fun ω => ?_⟩
+  · rw [gammatone_H_nsq _ _ _ _ _ _ ha, hc]
+    simp only [sub_self, ne_eq, OfNat.ofNat_ne_zero, not_false_eq_true, zero_pow, add_zero]
+    rw [← pow_mul, ← pow_mul, mul_comm]; exact div_self (pow_pos ha _).ne'
+  · rw [gammatone_H_nsq _ _ _ _ _ _ ha, hc, div_le_one (by positivity), ← pow_mul, mul_comm, pow_mul]
+    apply pow_le_pow_left₀ (by positivity)
+    nlinarith [sq_nonneg (ω - f.xi)]
+
+/-- `exp(alpha_const)` for `erb=False` -/
+theorem gammatone_alpha_const_3dB (n : ℕ) (hn : 1 ≤ n) :
+    0 < (4 * (2:ℝ) ^ ((1:ℝ) / n) - 4) ∧
+    Real.exp (gammatone_alpha_const false n) ^ 2 = 1 / (4 * (2:ℝ) ^ ((1:ℝ) / n) - 4) := by
+  have hn' : (0:ℝ) < n := by exact_mod_cast hn
+  have h1 : (1:ℝ) < (2:ℝ) ^ ((1:ℝ) / n) := Real.one_lt_rpow (by norm_num) (by positivity)
+  have hpos : 0 < (4 * (2:ℝ) ^ ((1:ℝ) / n) - 4) := by linarith
+  refine ⟨hpos, ?_⟩
+  simp only [gammatone_alpha_const, Bool.false_eq_true, ↓reduceIte, transc_log, transc_pow2]
+  rw [← Real.exp_nat_mul]
+  have : ((2:ℕ):ℝ) * (-0.5 * Real.log (4.0 * (2:ℝ) ^ ((1.0:ℝ) / n) - 4.0)) = -Real.log (4 * (2:ℝ) ^ ((1:ℝ) / n) - 4) := by
+    norm_num; ring
+  rw [this, Real.exp_neg, Real.exp_log hpos]
+  exact (one_div _).symm
+
+/-- **gammatone_3dB** (`erb=False`): the power gain at both band edges is exactly 1/2 of the peak -/
+theorem gammatone_3dB (mc : Bool) (n : ℕ) (hn : 1 ≤ n) (rate l r : ℝ) (hrate : 0 < rate) (hlr : l < r) :
+    let f := gammaFilt false false mc n rate l r
+    nsq (gammatone_H n f.alpha f.c f.xi f.offset (hertz_to_angular l rate)) = 1 / 2 ∧
+      nsq (gammatone_H n f.alpha f.c f.xi f.offset (hertz_to_angular r rate)) = 1 / 2 := by
+  intro f
+  obtain ⟨hal, hd, ha⟩ := gammaFilt_alpha false false mc n rate l r hrate hlr
+  obtain ⟨hpk, -, -⟩ := gammatone_peak false mc n rate l r hrate hlr
+  obtain ⟨hpos, hexp⟩ := gammatone_alpha_const_3dB n hn
+  have hn' : (0:ℝ) < n := by exact_mod_cast hn
+  have hxi : f.xi = hertz_to_angular ((l + r) / 2) rate := gammaFilt_xi ..
+  have hc : f.c * ((n - 1).factorial : ℝ) = f.alpha ^ n := by
+    have han : f.alpha ^ n ≠ 0 := (pow_pos ha n).ne'
+    have := hpk
+    field_simp at this
+    linarith
+  -- (α² + (Δω/2)²) = α² · 2^(1/n)
+  have hkey : ∀ e, (e = l ∨ e = r) → f.alpha ^ 2 + (hertz_to_angular e rate - f.xi) ^ 2 =
+      f.alpha ^ 2 * (2:ℝ) ^ ((1:ℝ) / n) := by
+    intro e he
+    have hsq : (hertz_to_angular e rate - f.xi) ^ 2 = (hertz_to_angular (r - l) rate) ^ 2 / 4 := by
+      rw [hxi, h2a_eq, h2a_eq, h2a_eq]
+      rcases he with rfl | rfl <;> (field_simp; ring)
+    have ha2 : f.alpha ^ 2 = (hertz_to_angular (r - l) rate) ^ 2 / (4 * (2:ℝ) ^ ((1:ℝ) / n) - 4) := by
+      show (gammaFilt false false mc n rate l r).alpha ^ 2 = _
+      rw [hal, mul_pow, hexp]; ring
+    rw [hsq, ha2]
+    have hx : (4 * (2:ℝ) ^ ((1:ℝ) / n) - 4) ≠ 0 := hpos.ne'
+    have hx1 : (2:ℝ) ^ ((1:ℝ) / n) - 1 ≠ 0 := by
+      have : 0 < (2:ℝ) ^ ((1:ℝ) / n) - 1 := by linarith
+      exact this.ne'
+    generalize (2:ℝ) ^ ((1:ℝ) / n) = x at hx hx1 ⊢
+    field_simp
+    ring
+  have h2n : ((2:ℝ) ^ ((1:ℝ) / n)) ^ n = 2 := by
+    rw [← Real.rpow_natCast, ← Real.rpow_mul (by norm_num)]
+    rw [one_div, inv_mul_cancel₀ hn'.ne', Real.rpow_one]
+  have key : ∀ e, (e = l ∨ e = r) →
+      nsq (gammatone_H n f.alpha f.c f.xi f.offset (hertz_to_angular e rate)) = 1 / 2 := by
+    intro e he
+    rw [gammatone_H_nsq _ _ _ _ _ _ ha, hc, hkey e he, mul_pow, h2n, ← pow_mul, ← pow_mul, mul_comm n 2]
+    have : (f.alpha ^ (2 * n)) ≠ 0 := (pow_pos ha _).ne'
+    field_simp
+  exact ⟨key l (Or.inl rfl), key r (Or.inr rfl)⟩
+
+/-- **gammatone_l2** (`scale_l2_norm=True`): `c² (2n-2)! / (2α)^(2n-1) = 1`, which is
+`∫₀^∞ |c t^(n-1) e^(-αt)|² dt = 1` by the Gamma integral (`gammatone_l2_integral`). -/
+theorem gammatone_l2 (erb mc : Bool) (n : ℕ) (hn : 1 ≤ n) (rate l r : ℝ) (hrate : 0 < rate) (hlr : l < r) :
+    let f := gammaFilt true erb mc n rate l r
+    f.c ^ 2 * ((2 * n - 2).factorial : ℝ) / (2 * f.alpha) ^ (2 * n - 1) = 1 := by
+  intro f
+  obtain ⟨-, -, ha⟩ := gammaFilt_alpha true erb mc n rate l r hrate hlr
+  have hfp := fact_pos' (2 * n - 2)
+  -- log_alpha is the log of alpha
+  obtain ⟨la, hla, hc⟩ : ∃ la, f.alpha = Real.exp la ∧
+      f.c = Real.exp ((n:ℝ) * (la + Real.log 2) - 0.5 * ((Real.log 2 + la) + Real.log ((2 * n - 2).factorial : ℝ))) := by
+    refine ⟨gammatone_log_alpha (gammatone_alpha_const erb n) l r rate, rfl, ?_⟩
+    simp only [f, gammaFilt, gammatone_cs_entry, gammatone_c, gammatone_log_c, ↓reduceIte, transc_exp,
+      transc_log, fact_eq]
+    norm_num
+  have h2a : 2 * f.alpha = Real.exp (la + Real.log 2) := by
+    rw [Real.exp_add, Real.exp_log (by norm_num), hla]; ring
+  rw [h2a, hc, ← Real.exp_nat_mul, ← Real.exp_nat_mul]
+  have hsplit : ((2:ℕ):ℝ) * ((n:ℝ) * (la + Real.log 2) - 0.5 * ((Real.log 2 + la) + Real.log ((2 * n - 2).factorial : ℝ)))
+      = ((2 * n - 1 : ℕ) : ℝ) * (la + Real.log 2) - Real.log ((2 * n - 2).factorial : ℝ) := by
+    have : ((2 * n - 1 : ℕ) : ℝ) = 2 * (n:ℝ) - 1 := by
+      rw [Nat.cast_sub (by omega)]; push_cast; ring
+    rw [this]; push_cast; ring
+  rw [hsplit, Real.exp_sub, Real.exp_log hfp]
+  have : Real.exp (((2 * n - 1 : ℕ) : ℝ) * (la + Real.log 2)) ≠ 0 := (Real.exp_pos _).ne'
+  field_simp
+
+/-- **gammatone_erb_const** (`erb=True`): `α = Δω · 2^(2n-2) ((n-1)!)² / (π (2n-2)!)` -/
+theorem gammatone_erb_const (n : ℕ) (hn : 1 ≤ n) :
+    Real.exp (gammatone_alpha_const true n) =
+      (2:ℝ) ^ (2 * n - 2) * ((n - 1).factorial : ℝ) ^ 2 / (Real.pi * ((2 * n - 2).factorial : ℝ)) := by
+  have h1 := fact_pos' (n - 1)
+  have h2 := fact_pos' (2 * n - 2)
+  simp only [gammatone_alpha_const, ↓reduceIte, transc_log, transc_pi, fact_eq]
+  have e2 : Real.log 2.0 * (2.0 * (n:ℝ) - 1.0) = ((2 * n - 1 : ℕ) : ℝ) * Real.log 2 := by
+    rw [Nat.cast_sub (by omega)]; push_cast; norm_num; ring
+  rw [e2, Real.exp_sub, Real.exp_sub, Real.exp_add, Real.exp_nat_mul, Real.exp_log (by norm_num),
+    Real.exp_log h2, Real.exp_log (by positivity)]
+  have e3 : Real.exp (2.0 * Real.log ((n - 1).factorial : ℝ)) = ((n - 1).factorial : ℝ) ^ 2 := by
+    rw [show (2.0:ℝ) = ((2:ℕ):ℝ) by norm_num, Real.exp_nat_mul, Real.exp_log h1]
+  rw [e3]
+  have e4 : (2:ℝ) ^ (2 * n - 1) = 2 * 2 ^ (2 * n - 2) := by
+    rw [show 2 * n - 1 = (2 * n - 2) + 1 by omega, pow_succ]; ring
+  rw [e4]
+  have := Real.pi_pos
+  field_simp
+  norm_num
+
+example : (1:ℕ) ≤ 4 ∧ (0:ℝ) < 16000 ∧ (100:ℝ) < 180 := by norm_num
+
+/-! ## 8. triangular / Fbank responses at every DFT bin -/
+
+theorem zero_lit : (0.0:ℝ) = 0 := by norm_num
+
+/-- the documented triangle through `(l,0)`, `(c,1)`, `(r,0)`, zero outside `[l, r]` -/
+noncomputable def docTri (l c r f : ℝ) : ℝ := max 0 (min ((f - l) / (c - l)) ((r - f) / (r - c)))
+
+theorem docTri_outside (l c r f : ℝ) (hlc : l < c) (hcr : c < r) (h : f < l ∨ r < f) : docTri l c r f = 0 := by
+  unfold docTri
+  apply max_eq_left
+  rcases h with h | h
+  · exact le_trans (min_le_left _ _) (div_nonpos_of_nonpos_of_nonneg (by linarith) (by linarith))
+  · exact le_trans (min_le_right _ _) (div_nonpos_of_nonpos_of_nonneg (by linarith) (by linarith))
+
+theorem docTri_inside (l c r f : ℝ) (hlc : l < c) (hcr : c < r) (h1 : l ≤ f) (h2 : f ≤ r) :
+    docTri l c r f = if f ≤ c then (f - l) / (c - l) else (r - f) / (r - c) := by
+  unfold docTri
+  have hcl : 0 < c - l := by linarith
+  have hrc : 0 < r - c := by linarith
+  split_ifs with h
+  · have a : (f - l) / (c - l) ≤ 1 := by rw [div_le_one hcl]; linarith
+    have b : 1 ≤ (r - f) / (r - c) := by rw [le_div_iff₀ hrc]; linarith
+    rw [min_eq_left (le_trans a b), max_eq_right (div_nonneg (by linarith) hcl.le)]
+  · rw [not_le] at h
+    have a : 1 ≤ (f - l) / (c - l) := by rw [le_div_iff₀ hcl]; linarith
+    have b : (r - f) / (r - c) ≤ 1 := by rw [div_le_one hrc]; linarith
+    rw [min_eq_right (le_trans b a), max_eq_right (div_nonneg (by linarith) hrc.le)]
+
+/-- **tri_peak**: the documented triangle is 1 at the centre and at most 1 (at least 0) everywhere -/
+theorem tri_peak (l c r f : ℝ) (hlc : l < c) (hcr : c < r) :
+    docTri l c r c = 1 ∧ docTri l c r f ≤ 1 ∧ 0 ≤ docTri l c r f := by
+  have hcl : 0 < c - l := by linarith
+  have hrc : 0 < r - c := by linarith
+  refine ⟨?_, ?_, le_max_left _ _⟩
+  · rw [docTri_inside l c r c hlc hcr hlc.le hcr.le, if_pos le_rfl, div_self hcl.ne']
+  · unfold docTri
+    apply max_le (by norm_num)
+    rcases le_or_gt f c with h | h
+    · exact le_trans (min_le_left _ _) (by rw [div_le_one hcl]; linarith)
+    · exact le_trans (min_le_right _ _) (by rw [div_le_one hrc]; linarith)
+
+/-- the loop `range(left_idx, min(dft_size, right_idx + 1))` visits exactly the bins whose frequency lies
+in `[l, r]` (floor / ceil arithmetic) and stays inside the buffer, in the lower half for a real filter -/
+theorem loop_range (rate l r : ℝ) (W dft : ℕ) (hrate : 0 < rate) (hW : 0 < W) (hl : 0 ≤ l) (hlr : l ≤ r)
+    (hny : r ≤ rate / 2) (hdft : W / 2 + 1 ≤ dft ∨ (W % 2 = 1 ∧ (W + 1) / 2 ≤ dft)) :
+    let lo : ℤ := ⌈(W:ℝ) * l / rate⌉
+    let hi : ℤ := min (dft:ℤ) (⌊(W:ℝ) * r / rate⌋ + 1)
+    0 ≤ lo ∧ hi ≤ dft ∧ lo.toNat + (hi - lo).toNat ≤ dft ∧ 2 * (lo.toNat + (hi - lo).toNat) ≤ W + 2 ∧
+      ∀ k : ℕ, k < dft → ((lo.toNat ≤ k ∧ k < lo.toNat + (hi - lo).toNat) ↔
+        (l ≤ rate * k / W ∧ rate * k / W ≤ r)) := by
+  intro lo hi
+  have hWr : (0:ℝ) < W := by exact_mod_cast hW
+  have hx : 0 ≤ (W:ℝ) * l / rate := by positivity
+  have hxy : (W:ℝ) * l / rate ≤ (W:ℝ) * r / rate := by
+    apply div_le_div_of_nonneg_right _ hrate.le; nlinarith
+  have hy2 : (W:ℝ) * r / rate ≤ (W:ℝ) / 2 := by
+    rw [div_le_div_iff₀ hrate (by norm_num)]; nlinarith
+  have hlo0 : 0 ≤ lo := Int.ceil_nonneg hx
+  have hfy : 2 * ⌊(W:ℝ) * r / rate⌋ ≤ W := by
+    have h1 : (⌊(W:ℝ) * r / rate⌋ : ℝ) ≤ (W:ℝ) / 2 := le_trans (Int.floor_le _) hy2
+    have h2 : ((2 * ⌊(W:ℝ) * r / rate⌋ : ℤ) : ℝ) ≤ ((W:ℤ):ℝ) := by push_cast; linarith
+    exact_mod_cast h2
+  have hlofy : lo ≤ ⌊(W:ℝ) * r / rate⌋ + 1 := by
+    have h1 : lo ≤ ⌈(W:ℝ) * r / rate⌉ := Int.ceil_mono hxy
+    have h2 := Int.ceil_le_floor_add_one ((W:ℝ) * r / rate)
+    omega
+  have hhi : hi ≤ dft := min_le_left _ _
+  have hhi2 : hi ≤ ⌊(W:ℝ) * r / rate⌋ + 1 := min_le_right _ _
+  have hhi3 : hi = dft ∨ hi = ⌊(W:ℝ) * r / rate⌋ + 1 := by
+    rcases min_choice (dft:ℤ) (⌊(W:ℝ) * r / rate⌋ + 1) with h | h
+    · exact Or.inl h
+    · exact Or.inr h
+  refine ⟨hlo0, hhi, by omega, by omega, fun k hk => ?_⟩
+  have e1 : (lo ≤ (k:ℤ)) ↔ l ≤ rate * k / W := by
+    show ⌈(W:ℝ) * l / rate⌉ ≤ (k:ℤ) ↔ _
+    rw [Int.ceil_le, div_le_iff₀ hrate, le_div_iff₀ hWr]
+    push_cast
+    constructor <;> intro h <;> nlinarith
+  have e2 : ((k:ℤ) < ⌊(W:ℝ) * r / rate⌋ + 1) ↔ rate * k / W ≤ r := by
+    rw [Int.lt_add_one_iff, Int.le_floor, le_div_iff₀ hrate, div_le_iff₀ hWr]
+    push_cast
+    constructor <;> intro h <;> nlinarith
+  rw [← e1, ← e2]
+  omega
+
+/-- what the generic bin theorem needs to know about the parts of a filter (all true of `triParts` and
+`fbankParts` by unfolding the generated definitions) -/
+structure PartsSpec (p : TriParts ℝ) (rate l r : ℝ) (W : ℕ) (half analytic : Bool) (g : ℝ → ℝ) : Prop where
+  left : p.leftIdx = ⌈(W:ℝ) * l / rate⌉
+  right : p.rightIdx = FloorCeil.truncI ((W:ℝ) * r / rate)
+  aL : p.assertLeft = decide (rate * ((p.leftIdx : ℝ) - 1) / W ≤ l)
+  aR : p.assertRight = decide (r ≤ rate * ((p.rightIdx : ℝ) + 1) / W)
+  lo : p.lo = p.leftIdx
+  hi : p.hi = min ((dftSize W half : ℕ) : ℤ) (p.rightIdx + 1)
+  mirror : p.mirror = (!half && !analytic)
+  val : ∀ k : ℕ, p.val k = g (rate * k / W)
+
+theorem dftSize_ge (W : ℕ) (half : Bool) :
+    W / 2 + 1 ≤ dftSize W half ∨ (W % 2 = 1 ∧ (W + 1) / 2 ≤ dftSize W half) ∨ (W = 0) := by
+  unfold dftSize
+  split_ifs <;> omega
+
+/-- **Generic bin theorem.**  For vertices `0 ≤ l ≤ r ≤ rate/2`: both asserts hold, no write leaves the
+buffer, and bin `k` holds `g(f_k)` if `f_k ∈ [l, r]`, for a real full-length response the mirrored value
+`g(f_{W-k})` if `f_{W-k} ∈ [l, r]`, and `0` otherwise. -/
+theorem bins_generic {p : TriParts ℝ} {rate l r : ℝ} {W : ℕ} {half analytic : Bool} {g : ℝ → ℝ}
+    (S : PartsSpec p rate l r W half analytic g) (hrate : 0 < rate) (hW : 0 < W) (hl : 0 ≤ l) (hlr : l ≤ r)
+    (hny : r ≤ rate / 2) :
+    ∃ res, triResponse p W half = .ok res ∧ res.length = dftSize W half ∧
+      ∀ k, k < dftSize W half → res[k]? = some
+        (if l ≤ rate * k / W ∧ rate * k / W ≤ r then g (rate * k / W)
+         else if (half = false ∧ analytic = false) ∧ k ≠ 0 ∧
+            l ≤ rate * ((W - k : ℕ) : ℝ) / W ∧ rate * ((W - k : ℕ) : ℝ) / W ≤ r
+           then g (rate * ((W - k : ℕ) : ℝ) / W)
+         else 0) := by
+  have hWr : (0:ℝ) < W := by exact_mod_cast hW
+  have hy : 0 ≤ (W:ℝ) * r / rate := by have : 0 ≤ r := le_trans hl hlr; positivity
+  have hR : p.rightIdx = ⌊(W:ℝ) * r / rate⌋ := by rw [S.right, truncI_nonneg _ hy]
+  have hd : W / 2 + 1 ≤ dftSize W half ∨ (W % 2 = 1 ∧ (W + 1) / 2 ≤ dftSize W half) := by
+    rcases dftSize_ge W half with h | h | h
+    · exact Or.inl h
+    · exact Or.inr h
+    · omega
+  obtain ⟨hlo0, hhi, hb, hh, hiff⟩ := loop_range rate l r W (dftSize W half) hrate hW hl hlr hny hd
+  -- the asserts
+  have hA1 : p.assertLeft = true := by
+    rw [S.aL, decide_eq_true_eq, S.left, div_le_iff₀ hWr]
+    have h1 := Int.ceil_lt_add_one ((W:ℝ) * l / rate)
+    have h2 : (⌈(W:ℝ) * l / rate⌉ : ℝ) - 1 < (W:ℝ) * l / rate := by linarith
+    rw [lt_div_iff₀ hrate] at h2
+    nlinarith
+  have hA2 : p.assertRight = true := by
+    rw [S.aR, decide_eq_true_eq, hR, le_div_iff₀ hWr]
+    have h1 := Int.lt_floor_add_one ((W:ℝ) * r / rate)
+    rw [div_lt_iff₀ hrate] at h1
+    nlinarith
+  have hlo : p.lo = ⌈(W:ℝ) * l / rate⌉ := by rw [S.lo, S.left]
+  have hhi' : p.hi = min ((dftSize W half : ℕ) : ℤ) (⌊(W:ℝ) * r / rate⌋ + 1) := by rw [S.hi, hR]
+  have hB : boundsOk p (dftSize W half) = true := by
+    simp only [boundsOk, Bool.and_eq_true, decide_eq_true_eq, hlo, hhi']
+    exact ⟨hlo0, hhi⟩
+  refine ⟨writeLoop p.mirror p.val p.lo.toNat (p.hi - p.lo).toNat (List.replicate (dftSize W half) 0.0),
+    by simp [triResponse, hA1, hA2, hB], by simp, fun k hk => ?_⟩
+  rw [writeLoop_get _ _ _ _ _ (by simpa [hlo, hhi'] using hb)
+    (fun _ => by simpa [hlo, hhi'] using (by
+      have hm : p.mirror = true := ‹_›
+      rw [S.mirror] at hm
+      have : half = false := by cases half <;> simp_all
+      simp only [dftSize, this, Bool.false_eq_true, ↓reduceIte] at hh ⊢
+      exact hh)) k (by simpa using hk)]
+  simp only [List.length_replicate, hlo, hhi', S.val]
+  have hk' := hiff k hk
+  by_cases hin : l ≤ rate * k / W ∧ rate * k / W ≤ r
+  · rw [if_pos (hk'.mpr hin), if_pos hin]
+  · rw [if_neg (fun h => hin (hk'.mp h)), if_neg hin]
+    by_cases hm : half = false ∧ analytic = false
+    · have hmir : p.mirror = true := by rw [S.mirror]; simp [hm.1, hm.2]
+      have hdW : dftSize W half = W := by simp [dftSize, hm.1]
+      by_cases hk0 : k = 0
+      · rw [if_neg (by simp [hk0]), if_neg (by simp [hk0])]
+        simp [hk, zero_lit]
+      · have hWk : W - k < dftSize W half := by omega
+        have hk2 := hiff (W - k) hWk
+        rw [hdW] at hk2 ⊢
+        by_cases hin2 : l ≤ rate * ((W - k : ℕ) : ℝ) / W ∧ rate * ((W - k : ℕ) : ℝ) / W ≤ r
+        · rw [if_pos ⟨hmir, hk0, (hk2.mpr hin2).1, (hk2.mpr hin2).2⟩, if_pos ⟨hm, hk0, hin2⟩]
+        · rw [if_neg (fun h => hin2 (hk2.mp ⟨h.2.2.1, h.2.2.2⟩)), if_neg (fun h => hin2 h.2.2)]
+          simp [hdW ▸ hk, zero_lit]
+    · have hmir : p.mirror = false := by
+        rw [S.mirror]; cases half <;> cases analytic <;> simp_all
+      rw [if_neg (by simp [hmir]), if_neg (fun h => hm h.1)]
+      simp [hk, zero_lit]
+
+/-- the generic bin theorem against a documented response `doc` that agrees with the per-bin formula on
+`[l, r]` and vanishes outside: every bin of the half spectrum / analytic response is `doc(f_k)`, and a real
+full-length response is its Hermitian extension (`doc(f_{W-k})` above the Nyquist bin). -/
+theorem bins_doc {p : TriParts ℝ} {rate l r : ℝ} {W : ℕ} {half analytic : Bool} {g doc : ℝ → ℝ}
+    (S : PartsSpec p rate l r W half analytic g) (hrate : 0 < rate) (hW : 0 < W) (hl : 0 ≤ l) (hlr : l ≤ r)
+    (hny : r ≤ rate / 2) (hin : ∀ f, l ≤ f → f ≤ r → g f = doc f)
+    (hout : ∀ f, 0 ≤ f → (f < l ∨ r < f) → doc f = 0) :
+    ∃ res, triResponse p W half = .ok res ∧ res.length = dftSize W half ∧
+      ∀ k, k < dftSize W half → res[k]? = some
+        (if (half = false ∧ analytic = false) ∧ W < 2 * k then doc (rate * ((W - k : ℕ) : ℝ) / W)
+         else doc (rate * k / W)) := by
+  obtain ⟨res, h1, h2, h3⟩ := bins_generic S hrate hW hl hlr hny
+  refine ⟨res, h1, h2, fun k hk => ?_⟩
+  rw [h3 k hk]
+  congr 1
+  have hWr : (0:ℝ) < W := by exact_mod_cast hW
+  have fk0 : ∀ j : ℕ, 0 ≤ rate * (j:ℝ) / W := fun j => by positivity
+  -- a bin frequency inside [l, r] is at most the Nyquist frequency
+  have hhalf : ∀ j : ℕ, rate * (j:ℝ) / W ≤ r → 2 * j ≤ W := by
+    intro j hj
+    have : rate * (j:ℝ) / W ≤ rate / 2 := le_trans hj hny
+    rw [div_le_div_iff₀ hWr (by norm_num)] at this
+    have h' : (2:ℝ) * j ≤ W := by nlinarith
+    exact_mod_cast h'
+  by_cases hM : (half = false ∧ analytic = false) ∧ W < 2 * k
+  · rw [if_pos hM]
+    have hnot : ¬(l ≤ rate * k / W ∧ rate * k / W ≤ r) := fun h => by have := hhalf k h.2; omega
+    rw [if_neg hnot]
+    have hk0 : k ≠ 0 := by omega
+    by_cases hin2 : l ≤ rate * ((W - k : ℕ) : ℝ) / W ∧ rate * ((W - k : ℕ) : ℝ) / W ≤ r
+    · rw [if_pos ⟨hM.1, hk0, hin2⟩, hin _ hin2.1 hin2.2]
+    · rw [if_neg (fun h => hin2 h.2.2), hout _ (fk0 _) (by
+        by_contra hc
+        rw [not_or, not_lt, not_lt] at hc
+        exact hin2 hc)]
+  · rw [if_neg hM]
+    by_cases hin1 : l ≤ rate * k / W ∧ rate * k / W ≤ r
+    · rw [if_pos hin1, hin _ hin1.1 hin1.2]
+    · rw [if_neg hin1]
+      have hz : doc (rate * k / W) = 0 := hout _ (fk0 k) (by
+        by_contra hc
+        rw [not_or, not_lt, not_lt] at hc
+        exact hin1 hc)
+      rw [hz]
+      apply if_neg
+      rintro ⟨hm, hk0, hin2⟩
+      have h1 := hhalf (W - k) hin2.2
+      have hkW : k < W := by
+        have : dftSize W half = W := by simp [dftSize, hm.1]
+        omega
+      have : ¬ W < 2 * k := fun h => hM ⟨hm, h⟩
+      have hkk : W - k = k := by omega
+      rw [hkk] at hin2
+      exact hin1 hin2
+
+theorem triParts_spec (rate l c r : ℝ) (W : ℕ) (half analytic : Bool) :
+    PartsSpec (triParts rate l c r W half analytic) rate l r W half analytic (fun f => tri_val f l c r) where
+  left := by simp [triParts, tri_left_idx]
+  right := by simp [triParts, tri_right_idx]
+  aL := by simp only [triParts, tri_assert_left]; norm_num; rfl
+  aR := by simp only [triParts, tri_assert_right]; norm_num; rfl
+  lo := by simp [triParts, tri_loop_lo]
+  hi := by simp [triParts, tri_loop_hi]
+  mirror := by simp [triParts, tri_mirror]
+  val := fun k => by simp [triParts, tri_written, tri_bin_hz]
+
+/-- the documented Fbank response: square root of the triangle in mel -/
+noncomputable def docFbank (l c r f : ℝ) : ℝ :=
+  Real.sqrt (docTri (mel_h2s l) (mel_h2s c) (mel_h2s r) (mel_h2s f))
+
+theorem fbankParts_spec (rate l c r : ℝ) (W : ℕ) (half analytic : Bool) :
+    PartsSpec (fbankParts rate l c r W half analytic) rate l r W half analytic
+      (fun f => Real.sqrt (fbank_val f l c r)) where
+  left := by simp [fbankParts, fbank_left_idx]
+  right := by simp [fbankParts, fbank_right_idx]
+  aL := by simp only [fbankParts, fbank_assert_left]; norm_num; rfl
+  aR := by simp only [fbankParts, fbank_assert_right]; norm_num; rfl
+  lo := by simp [fbankParts, fbank_loop_lo]
+  hi := by simp [fbankParts, fbank_loop_hi]
+  mirror := by simp [fbankParts, fbank_mirror]
+  val := fun k => by simp [fbankParts, fbank_written, fbank_bin_hz]
+
+/-- **tri_is_triangle**: for vertices `0 ≤ l < c < r ≤ rate/2` and every DFT width `W ≥ 1`,
+`get_frequency_response` raises nothing and equals the documented triangle (linear in Hz) at every bin;
+zero outside `[⌈W·l/rate⌉, ⌊W·r/rate⌋]`; Hermitian extension for the real full-length response. -/
+theorem tri_is_triangle (rate l c r : ℝ) (W : ℕ) (half analytic : Bool) (hrate : 0 < rate) (hW : 0 < W)
+    (hl : 0 ≤ l) (hlc : l < c) (hcr : c < r) (hny : r ≤ rate / 2) :
+    ∃ res, triResponse (triParts rate l c r W half analytic) W half = .ok res ∧
+      res.length = dftSize W half ∧
+      ∀ k, k < dftSize W half → res[k]? = some
+        (if (half = false ∧ analytic = false) ∧ W < 2 * k then docTri l c r (rate * ((W - k : ℕ) : ℝ) / W)
+         else docTri l c r (rate * k / W)) :=
+  bins_doc (triParts_spec rate l c r W half analytic) hrate hW hl (by linarith) hny
+    (fun f h1 h2 => by rw [docTri_inside l c r f hlc hcr h1 h2]; simp [tri_val])
+    (fun f _ h => docTri_outside l c r f hlc hcr h)
+
+theorem mel_lt {a b : ℝ} (ha : 0 ≤ a) (hab : a < b) : mel_h2s a < mel_h2s b :=
+  C19.mel_h2s_strictMonoOn (mem_Ioi.mpr (by linarith)) (mem_Ioi.mpr (by linarith)) hab
+
+theorem mel_le {a b : ℝ} (ha : 0 ≤ a) (hab : a ≤ b) : mel_h2s a ≤ mel_h2s b := by
+  rcases eq_or_lt_of_le hab with rfl | h
+  · exact le_rfl
+  · exact (mel_lt ha h).le
+
+/-- **fbank_is_sqrt_mel_triangle**: the same for `Fbank`, with the square root of the triangle in mel -/
+theorem fbank_is_sqrt_mel_triangle (rate l c r : ℝ) (W : ℕ) (half analytic : Bool) (hrate : 0 < rate)
+    (hW : 0 < W) (hl : 0 ≤ l) (hlc : l < c) (hcr : c < r) (hny : r ≤ rate / 2) :
+    ∃ res, triResponse (fbankParts rate l c r W half analytic) W half = .ok res ∧
+      res.length = dftSize W half ∧
+      ∀ k, k < dftSize W half → res[k]? = some
+        (if (half = false ∧ analytic = false) ∧ W < 2 * k then docFbank l c r (rate * ((W - k : ℕ) : ℝ) / W)
+         else docFbank l c r (rate * k / W)) := by
+  have hmlc := mel_lt hl hlc
+  have hmcr := mel_lt (by linarith) hcr
+  refine bins_doc (fbankParts_spec rate l c r W half analytic) hrate hW hl (by linarith) hny
+    (fun f h1 h2 => ?_) (fun f hf h => ?_)
+  · show Real.sqrt (fbank_val f l c r) = docFbank l c r f
+    unfold docFbank
+    rw [docTri_inside _ _ _ _ hmlc hmcr (mel_le hl h1) (mel_le (by linarith) h2)]
+    simp [fbank_val]
+  · unfold docFbank
+    rw [docTri_outside _ _ _ _ hmlc hmcr (by
+      rcases h with h | h
+      · exact Or.inl (mel_lt hf h)
+      · exact Or.inr (mel_lt (by linarith) h)), Real.sqrt_zero]
+
+/-- **fbank_peak**: the documented Fbank response is 1 at the centre and within `[0, 1]` everywhere -/
+theorem fbank_peak (l c r f : ℝ) (hl : 0 ≤ l) (hlc : l < c) (hcr : c < r) :
+    docFbank l c r c = 1 ∧ docFbank l c r f ≤ 1 ∧ 0 ≤ docFbank l c r f := by
+  have hmlc := mel_lt hl hlc
+  have hmcr := mel_lt (by linarith) hcr
+  obtain ⟨h1, -, -⟩ := tri_peak (mel_h2s l) (mel_h2s c) (mel_h2s r) (mel_h2s f) hmlc hmcr
+  obtain ⟨-, h2, h3⟩ := tri_peak (mel_h2s l) (mel_h2s c) (mel_h2s r) (mel_h2s f) hmlc hmcr
+  unfold docFbank
+  refine ⟨by rw [h1, Real.sqrt_one], ?_, Real.sqrt_nonneg _⟩
+  rw [← Real.sqrt_one]
+  exact Real.sqrt_le_sqrt h2
+
+/-- the bank's own vertices satisfy the hypotheses of the bin theorems: consecutive vertices of a
+constructed triangular bank are `0 ≤ l < c < r ≤ rate/2` -/
+theorem tri_vertices_valid {sc : Scale ℝ} {n : ℕ} {high : Option ℝ} {low rate : ℝ} {vs : List ℝ}
+    (hv : Scale.Valid sc low) (hok : triVertices sc n high low rate = .ok vs) (hlow : low < rate / 2)
+    (i : ℕ) (hi : i + 2 < vs.length) :
+    0 ≤ vs[i] ∧ vs[i] < vs[i + 1] ∧ vs[i + 1] < vs[i + 2] ∧ vs[i + 2] ≤ rate / 2 := by
+  have L := tri_layout hv hok hlow
+  obtain ⟨hr, -⟩ := triVertices_ok hok
+  obtain ⟨h0, hlt, hny⟩ := tri_accepted_lt hr hlow
+  have ok := scaleOK sc low _ hv hlt.le
+  have hm : (((n + 2 : ℕ) : ℝ)) - 1 + 0 ≤ (n:ℝ) + 1 := by push_cast; linarith
+  have b1 := L.bounds ok le_rfl hm i (by omega)
+  have b2 := L.bounds ok le_rfl hm (i + 2) hi
+  exact ⟨le_trans h0 b1.1, L.incr i (i + 1) (by omega) (by omega), L.incr (i + 1) (i + 2) (by omega) hi,
+    le_trans b2.2 hny⟩
+
+example : (0:ℝ) < 8000 ∧ 0 < 64 ∧ (0:ℝ) ≤ 20 ∧ (20:ℝ) < 300 ∧ (300:ℝ) < 700 ∧ (700:ℝ) ≤ 8000 / 2 := by norm_num
 
 end PdsVerif.C05
